@@ -322,8 +322,21 @@ SmallPkg(imp, two) ==
              [k |-> "in", r |-> {}, r2 |-> {}, f |-> IF two THEN 2 ELSE 1, sh |-> 0]>>]
 Pkgs(np) == {[p \in 1..np |-> SmallPkg(g[p], two)] : g \in ImpGraphs(np), two \in BOOLEAN}
 
+\* (e) shared helpers: three variables that only refer to functions, two functions that refer to at
+\* most one variable and at most one function (each other, or themselves), at least one function
+\* referring to a function.  The dependencies of a variable pass through chains of calls that other
+\* variables share in part, entered at different places: a helper reached through f, or directly.
+HelperPkgs ==
+    LET ks == <<"v1", "v1", "v1", "fn", "fn">>
+        VB == {{Ref(0, d, 1) : d \in T} : T \in SUBSET {4, 5}}
+        FB == {{Ref(0, v, 1) : v \in V} \cup {Ref(0, g, 1) : g \in G} : V \in {{}, {1}, {2}, {3}}, G \in {{}, {4}, {5}}}
+    IN {MkPkg(ks, [i \in 1..5 |-> IF i <= 3 THEN vb[i] ELSE fb[i - 3]], <<>>, Rep(1, 5)) :
+            vb \in [1..3 -> VB],
+            fb \in {x \in [1..2 -> FB] : \E i \in 1..2 : \E y \in x[i] : y.d \in {4, 5}}}
+
 Fam(f) ==
     CASE f = "all-3v0f"  -> Graphs(3, 0, "fn", 2, "two", FALSE)
+      [] f = "helpers-3v2f" -> {<<pk>> : pk \in HelperPkgs}
       [] f = "all-2v1f"  -> Graphs(2, 1, "fn", 2, "two", FALSE)
       [] f = "self-2v1f" -> Graphs(2, 1, "mt", 2, "one", TRUE)
       [] f = "all-2v2f"  -> Graphs(2, 2, "fn", 2, "mid", FALSE)
